@@ -170,7 +170,7 @@ def open_findings(pid):
 
 
 def run_trace_family(family, prefix, eval_index, clauses, proj_text, prop, tier, seed, replay, coverage,
-                     quick_n=320, thorough_n=4000, steps=40, known_codes=None):
+                     quick_n=640, thorough_n=4000, steps=40, known_codes=None):
     failing, divergent, errors = [], [], []
     known_codes = known_codes or {}
     listed = open_findings(prop["id"])
